@@ -62,6 +62,13 @@ pub fn check_c04(sc: &SyncSc, world: World, rep: &mut RunReport, salt: u64) -> O
         return None;
     }
     let exit0 = me.exit == ExitKind::Code(0);
+    // fault batch: an injected I/O error is outside C04's quantifier, so only the safety
+    // clauses are asserted for such a run (source untouched, outside-plan untouched, no
+    // partial file at a live name); its exit-0 post-conditions are counted, not raised
+    let faulted = out.stats.injected_errors > 0;
+    if faulted {
+        rep.fault("injected_io_error", out.stats.injected_errors);
+    }
     let src1 = snap(&out.world, sh, SRC_ROOT);
     let dst1 = snap(&out.world, dh, DST_ROOT);
     let dir_name = ["local", "push", "pull"][sc.dir as usize];
@@ -75,8 +82,16 @@ pub fn check_c04(sc: &SyncSc, world: World, rep: &mut RunReport, salt: u64) -> O
         rep.fail("c04.source_untouched", "mutating-call-on-source", format!("{dir_name}: {:?}", &smut[..smut.len().min(3)]));
         return None;
     }
-    // outside the plan: untouched (bytes and mtime), in both outcomes
-    let in_plan = |p: &str| plan.transfer.contains(p) || plan.delete.contains(p);
+    // fault batch: an injected I/O error is outside C04's quantifier (e.g. a failed remote
+    // listing is treated as an empty destination and everything is re-sent). Narrow
+    // relaxation: a non-excluded source path may additionally be re-delivered — with exactly
+    // the source's bytes; everything else is judged as usual.
+    let faulted_early = out.stats.injected_errors > 0;
+    let in_plan = |p: &str| {
+        plan.transfer.contains(p)
+            || plan.delete.contains(p)
+            || (faulted_early && src0.contains_key(p) && !excluded(p, &sc.excludes) && dst1.get(p).map(|x| &x.0) == src0.get(p).map(|x| &x.0))
+    };
     let keys: BTreeSet<&String> = dst0.keys().chain(dst1.keys()).collect();
     for p in keys {
         if is_staging(p) {
@@ -96,6 +111,23 @@ pub fn check_c04(sc: &SyncSc, world: World, rep: &mut RunReport, salt: u64) -> O
             rep.fail("c04.outside_plan_untouched", class, format!("{dir_name}, exit {:?}: destination file {p:?} was {what} although it is not in the plan (transfer {} / delete {})", me.exit, plan.transfer.len(), plan.delete.len()));
             return None;
         }
+    }
+    // whatever the outcome: a planned path holds its old bytes or the complete source bytes
+    for p in &plan.transfer {
+        let now = dst1.get(p).map(|x| &x.0);
+        if now != dst0.get(p).map(|x| &x.0) && now != src0.get(p).map(|x| &x.0) {
+            rep.fail("c04.no_partial_file", "partial-or-foreign-bytes-at-live-path", format!("{dir_name}, exit {:?}{}: {p:?} holds {:?} bytes, neither its previous content nor the source's {} bytes", me.exit, if faulted { " (after an injected I/O error)" } else { "" }, now.map(Vec::len), src0[p].0.len()));
+            return None;
+        }
+    }
+    if faulted {
+        if exit0 {
+            rep.probe("exit0_after_injected_error", 1);
+        } else {
+            rep.probe("exit_nonzero_after_injected_error", 1);
+        }
+        rep.shape = fnv(&[rep.shape, out.shape]);
+        return Some((Checked { plan, src0, dst0, dst1, exit0: false }, out));
     }
     if exit0 {
         for p in &plan.transfer {
@@ -201,7 +233,11 @@ impl Check for C04 {
     }
     fn generate(&self, seed: u64, _tier: Tier) -> SyncSc {
         let mut r = Rng::new(seed);
-        gen_sync(&mut r, true)
+        let mut sc = gen_sync(&mut r, true);
+        if r.below(6) == 0 {
+            sc.inject = Some((r.below(5) as u8, r.range(1, 12) as u32));
+        }
+        sc
     }
     fn execute(&self, sc: &SyncSc) -> RunReport {
         let mut rep = RunReport::default();
